@@ -46,6 +46,7 @@ THEOREMS = [
     "IrVerif.Clone.C13_faithful_function",
     "IrVerif.Clone.C13_faithful_model",
     "IrVerif.Clone.C13_faithful_serialize",
+    "IrVerif.Clone.C13_closed_outer",
 ]
 ASSUMPTIONS = [
     "hand-written model IrVerif.Clone of _cloner.py / the clone entry points / the constructors they call; tied to the "
@@ -62,14 +63,18 @@ ASSUMPTIONS = [
     "alphabet: the property allows tensors to be shared and the cloner shares non-graph attributes",
     "inliner-only Cloner parameters (attr_map, resolve_ref_attrs, metadata_props, post_process, None map entries) are "
     "fixed to what the clone entry points pass",
-    "values / nodes named None (Graph.__init__ invents names, property C15) are outside the model (answer "
-    "'unsupported'): oracle only (known finding D111)",
+    "values named None (Graph.__init__ invents names, property C15) are outside the model (answer 'unsupported'); "
+    "nodes named None are modelled (clone_graph keeps them anonymous since the fix of D111)",
     "frame theorems quantify over the edit alphabet IrVerif.Clone.Edit (23 editing calls, listed in Model/Clone.lean) with "
     "arguments outside the protected region; other editing calls are covered by the oracle only as far as generated",
     "C13_frame_orig_edited assumes the heap before cloning has no dangling pointers (wellFormed); checked on every "
     "abstracted real heap by the driver",
-    "C13_closed constrains node inputs only for allow_outer_scope_values=False; with True the clone may consume outer "
-    "values by design and D33 (unsorted graph) is a recorded finding (witness proved in Props/C13.lean)",
+    "node-input closedness: allow_outer_scope_values=False -> every input is a value of the clone (C13_closed); "
+    "True -> every input is a value of the clone or a pre-existing value not defined at the top level of the graph "
+    "being cloned, for the root and for every nested clone_graph call (C13_closed_outer / cloneGraph_cov); a value "
+    "defined only inside a sibling or deeper subgraph and used outside its scope (ill-scoped IR) is not excluded",
+    "the model follows the fixed cloner (D32 type copy, D33 pending-outputs check, D111 anonymous nodes, D112 detach "
+    "of the nodes of an abandoned clone): heaps are compared in full also after a raising clone",
     "serGraph (C13_faithful_serialize) is a model of what the serializer reads, not compared field by field with serde "
     "(properties C02/C03); the run reports on how many abstracted real heaps it is defined",
 ]
